@@ -139,14 +139,15 @@ impl<'w> ChainSim<'w> {
 		let total = if twin { n_nodes * 2 } else { n_nodes };
 		let mut nodes = vec![];
 		let mut models = vec![];
+		// compaction keeps the historical blocks on an archive node but compacts the state all the
+		// same: one world in three of the compaction properties runs its nodes in archive mode
+		let archive = (property == "C08" || property == "C02") && world.seed % 3 == 0;
 		for i in 0..total {
-			nodes.push(Node::create(
-				&format!("{}-n{}", dir_tag, i),
-				world.genesis.clone(),
-			));
+			let dir = crate::node::fresh_dir(&format!("{}-n{}", dir_tag, i));
+			nodes.push(Node::open_at(dir, world.genesis.clone(), archive).expect("Chain::init on fresh dir"));
 			models.push(NodeModel::new());
 		}
-		ChainSim {
+		let mut cs = ChainSim {
 			world,
 			property: property.to_string(),
 			oracles,
@@ -165,7 +166,12 @@ impl<'w> ChainSim<'w> {
 			allow_hh_div: vec![false; total],
 			last_sums_head: vec![None; total],
 			last_events: vec![],
+		};
+		if archive {
+			cs.probe("archive_mode_nodes");
 		}
+		cs
+
 	}
 
 	pub fn destroy(&mut self) {
